@@ -3,7 +3,10 @@
 package c14
 
 import (
+	"fmt"
 	"testing"
+
+	"verifsim/kernel"
 
 	"verifsim/harness"
 	"verifsim/regionsim"
@@ -99,10 +102,124 @@ func itoa(i int) string {
 	return string(b)
 }
 
+// scenarioPair: two independent regions, each used by one task only (a Region
+// is documented as not safe for concurrent use, two Regions are independent),
+// interleaved at every disk operation and at statement level.
+func scenarioPair(c *harness.Ctx) {
+	tp := c.T
+	defer simrt.SetClock(nil)
+	nOps := [2]int{1 + tp.Choose(25), 1 + tp.Choose(25)}
+	c.Config["ops"] = nOps
+	var sims [2]*regionsim.Sim
+	out, w := c.World(func(w *kernel.World) {
+		for i := 0; i < 2; i++ {
+			i := i
+			w.Go(fmt.Sprintf("region%d", i), func() {
+				s := regionsim.New(c, nil)
+				sims[i] = s
+				if !s.Open() {
+					return
+				}
+				for k := 0; k < nOps[i] && !c.Failed(); k++ {
+					if !s.Step(false) {
+						return
+					}
+				}
+				s.CheckFresh("the whole history")
+			})
+		}
+	})
+	if c.Infra != "" {
+		return
+	}
+	c.TaskPanics(w, "pair")
+	if c.Failed() {
+		return
+	}
+	if out != kernel.OutDone {
+		c.Fail("region.liveness", "pair", fmt.Sprint(out), "two regions used by two tasks did not finish: %v %v", out, w.DeadlockAt)
+		return
+	}
+	for _, s := range sims {
+		if s != nil && s.R != nil {
+			c.Fold(s.Fingerprint(), uint64(len(s.Disk.Img)))
+		}
+	}
+}
+
+// scenarioHuge: a history long and large enough to push the allocation beyond
+// sector 65535 (a file of more than 256 MiB): 258+ chunks of the maximum size,
+// then overwrites, reads and a re-open among the highest chunks. Chunk data is
+// a unique 16-byte header followed by zeros, which keeps the simulated disk
+// cheap (zero pages are never touched).
+func scenarioHuge(c *harness.Ctx) {
+	tp := c.T
+	defer simrt.SetClock(nil)
+	s := regionsim.New(c, nil)
+	s.Disk.ReadMode = 0
+	if !s.Open() {
+		return
+	}
+	mk := func(k regionsim.Key, seq, size int) []byte {
+		b := make([]byte, size)
+		copy(b, []byte{byte(k.X), byte(k.Z), byte(seq), byte(seq >> 8), 0xC4, 0x48, 0x55, 0x47, 0x45})
+		return b
+	}
+	n := 258 + tp.Choose(4)
+	for i := 0; i < n; i++ {
+		k := regionsim.Key{X: i % 32, Z: i / 32}
+		s.Seq++
+		data := mk(k, s.Seq, 255*4096-4-tp.Choose(3))
+		if err := s.R.WriteSector(k.X, k.Z, data); err != nil {
+			c.Fail("region.write", "write", "error", "WriteSector(%d,%d,%d bytes) failed on a healthy disk: %v", k.X, k.Z, len(data), err)
+			return
+		}
+		s.Model[k] = data
+	}
+	c.Config["chunks"] = n
+	c.Config["file_bytes"] = len(s.Disk.Img)
+	pHuge.Hit()
+	if !s.CheckImage("filling the file beyond sector 65535") {
+		return
+	}
+	for i := 3 + tp.Choose(6); i > 0; i-- {
+		hi := n - 1 - tp.Choose(4) // among the chunks stored above sector 65535
+		k := regionsim.Key{X: hi % 32, Z: hi / 32}
+		switch tp.Choose(4) {
+		case 0:
+			if !s.Read(k) {
+				return
+			}
+		case 1:
+			if !s.Reopen() {
+				return
+			}
+		case 2:
+			if !s.Write(k, 1+tp.Choose(9000)) { // shrinks and relocates
+				return
+			}
+		default:
+			if !s.Write(regionsim.Key{X: 31 - tp.Choose(4), Z: 31}, 1+tp.Choose(20000)) {
+				return
+			}
+		}
+	}
+	if !s.CheckFresh("the huge history") {
+		return
+	}
+	c.Fold(s.Fingerprint())
+	c.Nontrivial = true
+	c.FP = c.Hash
+}
+
+var pHuge = simrt.NewProbe("region.file.beyond.sector.65535(>256MiB)")
+
 var prop = &harness.Property{
 	ID: "C14",
 	Scenarios: []harness.Scenario{
-		{Name: "history", Weight: 1, Run: scenarioHistory},
+		{Name: "history", Weight: 600, Run: scenarioHistory},
+		{Name: "pair", Weight: 120, Run: scenarioPair},
+		{Name: "huge", Weight: 1, Run: scenarioHuge},
 	},
 	Real:        []string{"save/region: CreateWriter, Load, WriteSector, ReadSector, ExistSector, PadToFullSector (time.Now woven to the simulated clock)"},
 	Stub:        []string{"disk (simdisk.File, with and without io.WriterAt)", "clock (simrt.Clock with jumps between the clock reads of one operation)"},
